@@ -181,7 +181,7 @@ func fragCorr(c *Ctx) {
 	srcs := append([]string{}, fragExtra...)
 	srcs = append(srcs, linkExtra...)
 	srcs = append(srcs, corrSources(c, c.N(3), 1200)...)
-	budget, used := c.N(500000), 0
+	budget, used := c.Budget(500000), 0
 	add := func(src string) {
 		if t, ok := fragCaseTerm(src); ok && used+len(t) <= budget {
 			used += len(t)
@@ -210,7 +210,7 @@ func decCorr(c *Ctx) {
 	srcs = append(srcs, linkExtra...)
 	srcs = append(srcs, sinkSources...)
 	srcs = append(srcs, corrSources(c, c.N(3), 1200)...)
-	budget, used := c.N(600000), 0
+	budget, used := c.Budget(600000), 0
 	for i, s := range srcs {
 		if i%2 == 1 {
 			s = mangle(c.Rng, s)
@@ -222,11 +222,13 @@ func decCorr(c *Ctx) {
 		used += len(fc) + len(dt)
 		cases = append(cases, fmt.Sprintf("mkDC (%s)\n  (%s)", fc, dt))
 		c.Res.CaseInputs = appendCase(c.Res.CaseInputs, "mismatch_decorate", s)
+		c.Res.CaseInputs = appendCase(c.Res.CaseInputs, "mismatch_tokens", s)
 		c.Res.Traces++
 	}
-	c.caseSB.WriteString(coqCaseHeader + "From DV Require Import Model.FragSkel Model.Link Model.Fragment Model.FragCases Model.Decorate Model.DecCases Gen.FragTbl Gen.DecTbl.\nLocal Open Scope Z_scope.\n")
+	c.caseSB.WriteString(coqCaseHeader + "From DV Require Import Model.FragSkel Model.Link Model.Fragment Model.FragCases Model.Decorate Model.DecCases Gen.FragTbl Gen.DecTbl Gen.RestTbl.\nLocal Open Scope Z_scope.\n")
 	c.caseSB.WriteString("Definition dcases : list dcase := [\n" + strings.Join(cases, ";\n") + "].\n")
-	c.caseSB.WriteString("Definition mismatch_decorate := Eval vm_compute in bad_dcases frag_tbl ast_stmt_kinds ast_decl_kinds dec_tbl dcases.\nPrint mismatch_decorate.\nLocal Close Scope Z_scope.\n")
+	c.caseSB.WriteString("Definition mismatch_decorate := Eval vm_compute in bad_dcases frag_tbl ast_stmt_kinds ast_decl_kinds dec_tbl dcases.\nPrint mismatch_decorate.\n")
+	c.caseSB.WriteString("Definition mismatch_tokens := Eval vm_compute in bad_tokens frag_tbl ast_stmt_kinds ast_decl_kinds dec_tbl rest_tbl dcases.\nPrint mismatch_tokens.\nLocal Close Scope Z_scope.\n")
 }
 
 func init() { corrs["FRAG"] = fragCorr; corrs["DEC"] = decCorr; corrs["C11"] = decCorr }
